@@ -66,6 +66,8 @@ def run(ctx: Ctx):
             for i, row in enumerate(sc["rows"]):
                 if i % 2 == 1 or len(sc["rows"]) == 1:
                     row["step"] = row["step"] + Fraction(1, 2)
+        if k % 5 == 2:
+            sc["period_extra"] = scen.DT // 2      # records every floor(period / dt) steps, in both directions
         cases.append(sc)
     jobs = []
     for sc in cases:
